@@ -239,9 +239,12 @@ func (txn *Txn[T]) PrintTree() {
 }
 
 func (txn *Txn[T]) cloneNode(n *header[T]) *header[T] {
-	if n.txnID() == txn.txnID {
+	if !n.isLeaf() && n.txnID() == txn.txnID {
 		// The node was already cloned during this transaction and can
-		// be mutated in-place.
+		// be mutated in-place. Leaves carry no transaction ID (txnID()
+		// reports 0 for them) and must always be cloned, also by the
+		// first transaction on a tree whose ID is 0, so that their
+		// watch channel gets closed.
 		return n
 	}
 	if n.watch != nil {
